@@ -569,7 +569,17 @@ class C03(Prop):
                    "is an agenda entry), the one kernel answer that depends on the run plan; the generated families replace it by "
                    "env.now, the theorem about numeric horizons excludes the call CPeek",
                    "model = repaired kernel (fix bd0bcc6: the stop of run(until=event) is raised after the remaining callbacks)"]
-    partial = []
+    partial = ["reproducibility of the IMPLEMENTATION in another interpreter process / under any PYTHONHASHSEED is checked on a sample "
+               "of every run (extra_checks: fresh interpreters, 2 seeds quick / 16 thorough), not proved; the model is a Coq function "
+               "(C03_run_deterministic)",
+               "C03_split_transparent (all stop points) is proved for parametric programs: automata that treat event ids as opaque "
+               "tokens and do not call env.peek() (Kernel/StopRen.v; every script-compiled program without peek is: "
+               "C03_scripts_parametric) -- in the model an event is a number and an arbitrary Coq automaton could compute with it; "
+               "for ALL automata the theorems are C03_split_transparent_partial (split run = free run with inert sentinels) and "
+               "C03_split_transparent_events_steps(_run) (plans without numeric horizons: identical executions)",
+               "the split-transparency theorems compare with the free run (step() repeated, whatever the steps answer), which is "
+               "what a resumed run() is; runs in which a step answers the model's explicit internal-error result RBroken are excluded "
+               "(DESIGN section 4: RFuel/RBroken), one-sidedly: only the uninterrupted run is required not to answer it"]
 
     def gen_case(self, rng, tier):
         r = rng.random()
